@@ -7,6 +7,7 @@ What is read from /repo on every run (values, not spellings):
   ALPHA_FACTOR   integrate.cpp: every `sqrt(E)` with E = c·eps_r·EPSILON_ZERO·R_KJ_DEG_MOL·tk_x (c < 10^6·1) → c/10^6 (= 1/2)
   CD_DDL_FACTOR  residuals: the two assignments  v = ±c · <a Gouy–Chapman constant variable> · sqrt(…)          → c (= 1/2)
   CCM_FACTOR     residuals: the term  c · capacitance0 · la · R_KJ_DEG_MOL · tk_x · LOG_10 / F_KJ_V_EQ            → c (= 2)
+  TRXN_DZ_COEF_POWER  structures.cpp trxn_add: `trxn.dz[i] += coef^p · r.dz[i]` (count_trxn > 0 branch)                → p (= 1)
   PSI_COEF       add_potential_factor: `X += …->z * ….coef` accumulates X, then `….coef = c · X`                 → c (= -2)
 
 The facts are read from the STRUCTURE of the code: comments are stripped; every statement `lhs = rhs;` of the function is
@@ -341,6 +342,16 @@ def assignments(body):
                 except Unrecognised:
                     break
             break
+        # remainder of a `for (a; b; c) stmt` header that the split on `;` left in front of the statement
+        depth = 0
+        for j, ch in enumerate(c):
+            if ch == "(":
+                depth += 1
+            elif ch == ")":
+                depth -= 1
+                if depth < 0:
+                    c = c[j + 1:].strip()
+                    break
         m = re.match(r"^((?:\w|\.|->|::|\[[^\]]*\]|\([^)]*\))+)\s*(\+=|-=|=)(?!=)\s*(.+)$", c)
         if m and not re.match(r"(?:LDBLE|double|int|float|return)\b", c):
             out.append((m.group(1), m.group(2), m.group(3)))
@@ -519,11 +530,40 @@ def extract():
             fail("PSI_COEF", f"accumulators {sorted(acc)}, assignments {list(map(str, found))}")
     except Unrecognised as e:
         fail("PSI_COEF", str(e))
+    # trxn_add: the CD-MUSIC distribution of a substituted reaction is scaled by the stoichiometric coefficient
+    try:
+        st = strip_comments((src / "structures.cpp").read_text())
+        m = re.search(r"\btrxn_add\s*\(([^)]*)\)\s*\{", st)
+        if not m:
+            raise Unrecognised("trxn_add not found")
+        params = [p.strip().split()[-1].lstrip("*&") for p in m.group(1).split(",")]
+        if len(params) < 2:
+            raise Unrecognised("trxn_add parameters")
+        coefname = params[1]
+        body = st[m.end() - 1:match_close(st, m.end() - 1)]
+        table = dict(table_for(st))
+        table.update(local_initialisers(body))
+        pw = []
+        for lhs, op, rhs in assignments(body):
+            if op == "+=" and re.match(r"trxn\.dz\[", lhs):
+                c, atoms = single(parse(prepared(rhs, table, static_helpers(st))))
+                rest = {a: p for a, p in atoms.items() if a != coefname}
+                if c == 1 and len(rest) == 1 and re.search(r"Get_dz\(\)\[|\bdz\[", list(rest)[0]) and list(rest.values()) == [1]:
+                    pw.append(Fraction(atoms.get(coefname, 0)))
+                else:
+                    raise Unrecognised("dz accumulation is not coef^p * dz: " + rhs)
+        if len(pw) == 1:
+            out["TRXN_DZ_COEF_POWER"] = pw[0]
+            where.append("structures.cpp trxn_add dz accumulation")
+        else:
+            fail("TRXN_DZ_COEF_POWER", f"{len(pw)} accumulation statements")
+    except Unrecognised as e:
+        fail("TRXN_DZ_COEF_POWER", str(e))
     return out, where, ok
 
 
 KEYS = ("F_C_MOL", "F_KJ_V_EQ", "R_KJ_DEG_MOL", "EPSILON_ZERO", "GC_FACTOR", "FSINH_FACTOR", "ALPHA_FACTOR", "CD_DDL_FACTOR",
-        "PSI_COEF", "CCM_FACTOR")
+        "PSI_COEF", "CCM_FACTOR", "TRXN_DZ_COEF_POWER")
 
 
 def lean_rat(q):
